@@ -1,7 +1,7 @@
 SPEC = {
     "id": "C09",
     "harness": "c09",
-    "n": {"quick": 1500, "thorough": 24000},
+    "n": {"quick": 1200, "thorough": 24000},
     "shard": 170,
     "tie_codes": (),
     "trusted_base": [
